@@ -231,8 +231,22 @@ MORE4 = {
     'C12': " KEYP: the key calculator stores into, and calls mutators on, its own locals only.",
     'C17': " KEY-DERIVATION: the template is expanded on the full match that selected the field.",
 }
+MORE5 = {
+    'C01': " HLP also: each helper class overrides only its own hook.",
+    'C02': " PKW: a schema's primaryKey is stored / deleted only by set_primary_key and by concatenate for its own target.",
+    'C04': " SRC: the resource iterator of a sub-flow of sources() is iterated to its end.",
+    'C05': " The generic rules also run on validate.py, to_path.py and to_zip.py (observers the property names).",
+    'C07': " R16 also: the time / datetime payload carries the microsecond (reported as two known findings).",
+    'C08': " R14g: no GeneratorExit / BaseException handler or finally block in a generator of stream / checkpoint / unstream loops, drains, "
+           "advances or yields.",
+    'C09': " R16j: a written row is one JSON object / GeoJSON feature on every path of the writer.",
+    'C11': " KEY: the list of key fields keeps the order of the key specification.",
+    'C13': " PRS: load substitutes its own parser exactly for xml, excel-xml, sql and geojson.",
+    'C16': " SRC end clause as in C04. SMP: iterable_storage reads the iterable only as a bounded slice into the sample that is chained back.",
+}
+GEN = GEN.replace('(R35).', '(R35), and none changes a module-level container (R36).') if '(R35).' in GEN else GEN
 for _pid, _c in CHECKS.items():
-    _c['text'] = _c['text'] + MORE.get(_pid, '') + MORE2.get(_pid, '') + MORE3.get(_pid, '') + MORE4.get(_pid, '') + GEN
+    _c['text'] = _c['text'] + MORE.get(_pid, '') + MORE2.get(_pid, '') + MORE3.get(_pid, '') + MORE4.get(_pid, '') + MORE5.get(_pid, '') + GEN
     if 'generic defect-pattern rules' not in _c['technique']:
         _c['technique'] = _c['technique'] + '; generic defect-pattern rules on the anchored files (shared class state, late-binding closures, groupby runs, run idempotence)'
 
